@@ -263,6 +263,22 @@ class Roles:
             # callback = getattr(mgr, event_name) with mgr an element of the event managers
             if isinstance(ft, tuple) and ft[0] == 'call' and ft[1] == 'ext:builtins.getattr':
                 return 'event'
+            # ... or an element of what an in-repo generator yields, every yield being such a getattr(...)
+            if isinstance(ft, tuple) and ft[0] == 'elem' and isinstance(ft[1], tuple) and ft[1] and ft[1][0] == 'call' \
+                    and isinstance(ft[1][1], str) and ft[1][1] in self.p.functions:
+                gen = self.p.functions[ft[1][1]]
+                genv = FuncEnv.of(self.p, gen)
+                yields = [n for n in genv.own_nodes() if isinstance(n, ast.Yield) and n.value is not None]
+
+                def is_getattr(e, depth=0) -> bool:
+                    if isinstance(e, ast.Call) and isinstance(e.func, ast.Name) and e.func.id == 'getattr':
+                        return True
+                    if isinstance(e, ast.Name) and depth < 2:
+                        defs = genv.local_defs().get(e.id, [])
+                        return bool(defs) and all(d[0] == 'assign' and is_getattr(d[1], depth + 1) for d in defs)
+                    return False
+                if yields and all(is_getattr(y.value) for y in yields):
+                    return 'event'
         return None
 
     def foreign(self, ev: Ev) -> Optional[str]:
